@@ -17,6 +17,12 @@ INFO = {
  "C18": ("EIA word count floor(LENGTH/32)+1+2 instead of ceil(LENGTH/32)+2", "LENGTH a multiple of 32 (incl. 0)"),
  "C19": ("decrypt_asn1 right-pads C1.y to 32 bytes instead of left-padding it", "an ephemeral point whose y has a leading zero byte (1/256)"),
  "C20": ("Sm2PrivateKey::decrypt length guard `<=` became `<`", "a ciphertext of exactly C1 || 32 bytes with a valid C1: panic in xor_bytes"),
+ "C01b": ("cf(): byte 2 of every message word loaded through `as i8 as u32` (sign extension ORs 0xFFFF0000 into the word)", "a byte >= 0x80 at offset 2 mod 4 of a padded block: e.g. any message with len % 4 == 2 (the 0x80 pad byte lands there)"),
+ "C03b": ("fn_add corrects a sum in [n, 2^256) by subtracting the constant SM2_N_NEG instead of SM2_N", "e + x1 or r + s in [n, 2^256): about 2^-32 per addition; conforming signatures rejected / non-conforming r emitted"),
+ "C12b": ("sm9_u256_pairing evaluates the lines at [2]P (p.point_double().to_affine_point())", "every input: the map is e(P,Q)^2 - bilinear and non-degenerate, so all round trips inside the library still succeed"),
+ "C16b": ("extract_exch_key tests H1(ID||02) == 0 before adding ke instead of testing t1 = H1 + ke", "ke = N - H1(ID||02): extraction returns a key with de = infinity instead of failing"),
+ "C18b": ("EEA IV byte 4 masked with 0x7c: BEARER's top bit dropped", "BEARER >= 16 (keystream of BEARER - 16 is used)"),
+ "C19b": ("to_byte_be takes the compressed tag from the parity of the Jacobian y instead of the affine y", "compress = true on a point with Z != 1 (every derived public key, every C1): wrong tag for about half of them"),
  "C07b": ("CBC decrypt bounds the PKCS#7 pad byte by the ciphertext length instead of the block size", "a ciphertext of two or more blocks whose last decrypted byte is 17..min(255, length): accepted and truncated instead of an error"),
  "C08b": ("ZUC S-box S0[0x17] changed from 0xa5 to 0xa6", "a byte 0x17 entering S0 inside F (the EEA/EIA vectors in the crate never do; the three published keystream vectors do)"),
  "C10b": ("SM9 decrypt compares only min(|C2|, 32) bytes of C3", "a message shorter than 32 bytes and a C3 modified at a byte index >= |M|"),
